@@ -53,3 +53,7 @@ Fixpoint phys_from (f : fs) (cur : path) (w : path) : Prop :=
   | s :: w' => normal_seg s = true /\ is_link (child f cur s) = false /\ phys_from f (cur ++ [s]) w'
   end.
 Definition Phys (f : fs) (p : path) : Prop := phys_from f [] p.
+
+(* realpath finished without giving up at a symbolic-link loop (for the whole path p from "/") *)
+Definition no_loop_met (f : fs) (p : path) : Prop :=
+  forall s, joinreal (rfuel f p) f [] [] (map Seg p) <> RP_partial s.
